@@ -877,6 +877,21 @@ pub fn c08(ctx: &mut Ctx) {
         }
     }
     ctx.rep.count("cases.pipeline_multiplicity", n);
+    // every record count 0..=40 (and a few larger) x threads 1..=8, 16: how a batch is split over the pool must not matter
+    let pool: Vec<Vec<u8>> = (0..130usize).map(|i| fill(&[b"ACGT"[i % 4], b"ACGT"[(i / 4) % 4], b"AT"[(i / 16) % 2]], 2 + i % 7)).collect();
+    let mut n = 0u64;
+    for nrec in (0..=40usize).chain([63, 64, 65, 127, 129]) {
+        for threads in (1..=8usize).chain([16]) {
+            for (norm, mem) in [(true, 6.0f64), (false, 0.5)] {
+                if !sh.mine() {
+                    continue;
+                }
+                c08_pipeline(ctx, &pool[..nrec], None, 2, 2, 3, norm, threads, mem);
+                n += 1;
+            }
+        }
+    }
+    ctx.rep.count("cases.record_count_lattice", n);
     // direct tables
     let recs: Vec<Vec<u8>> = vec![b"ACGTACGTAA".to_vec(), b"".to_vec(), b"TTTTNGGG".to_vec(), b"AC".to_vec()];
     let mut n = 0u64;
